@@ -33,36 +33,24 @@ Definition token_cleaner (infos : list (token_info F)) (tokens : list (token F))
   let index := match find_index info_is_eq infos with Some i => S i | None => O end in
   firstn index tokens ++ filter (fun t => negb (is_text t)) (skipn index tokens).
 
-(* missing_token_adder (mod.rs:218-260) *)
-Fixpoint add_missing (ts : list (token F)) (operator_required : bool) : list (token F) :=
+(* missing_token_adder (tokinizer/mod.rs:218-268): the scan starts after the first '='; '+' is
+   inserted between two adjacent operands (a value or ')' followed by a value or '('), and 0 in
+   front of an operator that starts an expression (scan start or directly after '(') *)
+Fixpoint add_missing (ts : list (token F)) (expression_start operator_required : bool) : list (token F) :=
   match ts with
   | [] => []
   | t :: r =>
-    if is_any_op t then t :: add_missing r false
-    else if operator_required then TOperator OP_PLUS :: t :: add_missing r true
-    else t :: add_missing r true
+    if is_op OP_LP t then
+      (if operator_required then [TOperator OP_PLUS] else []) ++ t :: add_missing r true false
+    else if is_op OP_RP t then t :: add_missing r false true
+    else if is_any_op t then
+      (if expression_start then [TNumber f0 Decimal] else []) ++ t :: add_missing r false false
+    else
+      (if operator_required then [TOperator OP_PLUS] else []) ++ t :: add_missing r false true
   end.
 
 Definition missing_token_adder (tokens : list (token F)) : list (token F) :=
-  match tokens with
-  | [] => []
-  | _ =>
-    let index := match find_index (fun t => is_op OP_EQ t || is_op OP_LP t) tokens with
-                 | Some i => S i | None => O end in
-    if Nat.leb (length tokens) (index + 1)%nat then tokens
-    else
-      let index := match nth_opt tokens index with
-                   | Some t => if is_op OP_LP t then S index else index
-                   | None => index end in
-      (* index + 1 < len held before the optional increment, so index < len: no panic *)
-      let head := firstn index tokens in
-      let tail := skipn index tokens in
-      match tail with
-      | [] => tokens   (* unreachable, see above *)
-      | t :: _ =>
-        let tail := if is_any_op t then TNumber f0 Decimal :: tail else tail in
-        head ++ add_missing tail false
-      end
-  end.
+  let index := match find_index (is_op OP_EQ) tokens with Some i => S i | None => O end in
+  firstn index tokens ++ add_missing (skipn index tokens) true false.
 
 End WithNum.
